@@ -165,7 +165,7 @@ fn show(r: &Result<u64, ckb_error::Error>) -> String {
 fn measure(v: &Verifier) -> Option<Vec<(u64, i8)>> {
     let mut out = vec![];
     for (hash, g) in v.groups() {
-        match v.verify_single(g.group_type, hash, u64::MAX) {
+        match v.verify_single(g.group_type, hash, 200_000_000) {
             Ok(c) => out.push((c, 0)),
             Err(ScriptError::ValidationFailure(_, code)) => out.push((0, code)),
             Err(e) => {
@@ -396,6 +396,11 @@ fn gen_case(p: &Prog, rng: &mut Rng, thorough: bool, consensus: &Arc<Consensus>)
 }
 
 pub fn run(opts: &Opts) {
+    // the signal path's debug assertion panics inside tokio workers; keep stderr short
+    std::panic::set_hook(Box::new(|info| {
+        let msg = info.to_string();
+        eprintln!("panic: {}", msg.lines().next().unwrap_or(""));
+    }));
     let consensus = Arc::new(
         ConsensusBuilder::default()
             .hardfork_switch(ckb_types::core::hardfork::HardForks {
@@ -451,7 +456,21 @@ pub fn run(opts: &Opts) {
                     for _ in 0..n {
                         let toggles = rng.range(0, 4);
                         let budget = *rng.pick(&[u64::MAX, total, total + 1, total.saturating_sub(1), total / 2]);
-                        let r = run_signal(&rt, &v, budget, &mut rng, toggles);
+                        let r = match std::panic::catch_unwind(std::panic::AssertUnwindSafe(|| run_signal(&rt, &v, budget, &mut rng, toggles))) {
+                            Ok(r) => r,
+                            Err(_) => {
+                                // debug builds: `debug_assert!(consumed_cycles <= max_cycles)` in
+                                // chunk_run_with_signal fires after a Resume — the F4b symptom
+                                out.op(&format!("note signal budget={budget} toggles={toggles}"), "ok");
+                                out.count("op:signal-panic");
+                                if all_ok && budget < total {
+                                    out.oracle_fail("signal-succeeds-below-cost", &format!("budget={budget} cost={total} the verifier's own debug assertion `consumed <= max_cycles` fired (panic) toggles={toggles}"));
+                                } else {
+                                    out.oracle_fail("signal-panics", &format!("budget={budget} cost={total} toggles={toggles}"));
+                                }
+                                continue;
+                            }
+                        };
                         out.op(&format!("note signal budget={budget} toggles={toggles}"), "ok");
                         out.count("op:signal");
                         if all_ok {
